@@ -2,6 +2,7 @@
 import json
 import os
 
+import dmapcheck
 import dmaplib
 import vlib
 
@@ -16,7 +17,7 @@ def hexs(s):
     return s.encode().hex()
 
 
-def grid(seed, dname):
+def grid(seed, dname, paths=None):
     """one scenario: every (operation, options, prior state, path) on its own key"""
     setup, tests, finals = [], [], []
     labels = {}
@@ -32,7 +33,7 @@ def grid(seed, dname):
             setup.append({"op": "put", "c": "emb@owner", "d": dname, "k": k, "v": hexs("exp%d" % n), "px": 150})
         return k
 
-    for path in PATHS:
+    for path in (paths or PATHS):
         for st in STATES:
             for cond in CONDS:
                 for exp in EXPS:
@@ -78,110 +79,36 @@ def grid(seed, dname):
     return ops
 
 
-def classify(msg, op):
-    return {"kind": "dmap", "op": op.get("op"), "path": (op.get("c") or "").split("@")[0]}
-
-
-def run(res):
-    proofs_ok = vlib.common_obligations(res, PID)
-    if getattr(res, "harness_error", None):
-        res.violation({"kind": "harness-build", "failed": "correspondence: the harness no longer compiles against /repo",
-                       "detail": res.harness_error[-3000:]}, no_input=True)
-        res.coverage.update({"evaluations": 0, "distinct_nontrivial": 0})
-        return
-    groups = []
-    sid = 0
+def gen_groups(res):
     cfgs = [{"members": 3, "replicas": 2, "partitions": 7, "table": 4096, "evict_workers": 1}]
     if res.tier == "thorough":
         cfgs += [{"members": 3, "replicas": 1, "partitions": 13, "table": 4096, "evict_workers": 1},
                  {"members": 4, "replicas": 3, "partitions": 7, "table": 1024, "evict_workers": 1},
                  {"members": 2, "replicas": 2, "partitions": 7, "table": 4096, "evict_workers": 1}]
-    allsc = {}
-    for ci, cfg in enumerate(cfgs):
-        sc = {"id": sid, "ops": grid(res.seed, "c15g%d" % sid), "_cfg": cfg}
-        allsc[sid] = sc
-        groups.append((cfg, [sc]))
-        sid += 1
-    results = dmaplib.run_groups(groups)
-    nviol = 0
-    discarded = 0
-    evaluated = 0
-    hist = {}
-    rhist = {}
-    seen_classes = set()
-    for sidx, sc in allsc.items():
-        obs = results[sidx]["obs"]
-        cfg = sc["_cfg"]
-        # judge every test op independently (each lives on its own key): semantics + mirror
-        ref = dmaplib.Ref()
-        for i, (op, ob) in enumerate(zip(sc["ops"], obs)):
-            hist[op["op"]] = hist.get(op["op"], 0) + 1
-            rhist[str(ob.get("r"))] = rhist.get(str(ob.get("r")), 0) + 1
-            if op["op"] in ("sleep", "stats", "keyinfo"):
-                continue
-            bad = None
-            try:
-                if op["op"] == "dump":
-                    bad = dmaplib.check_mirror({"ops": [op]}, [ob], cfg["replicas"], cfg["members"])
-                    if bad:
-                        bad = bad[1]
-                else:
-                    evaluated += 1
-                    exp = ref.step(op, ob)
-                    bad = dmaplib.compare_obs(op, ob, exp)
-            except dmaplib.Discard:
-                discarded += 1
-                continue
-            if bad:
-                # the operation under test is the last non-get/dump op on that key
-                culprit = op
-                j = i
-                while j >= 0 and (sc["ops"][j]["op"] in ("get", "dump") or sc["ops"][j].get("k") != op.get("k")):
-                    j -= 1
-                if j >= 0:
-                    culprit = sc["ops"][j]
-                klass = classify(bad, culprit)
-                key = json.dumps([klass, {k: v for k, v in culprit.items() if k in ("nx", "xx", "ex", "px", "exat", "pxat")}, bad.split(" returned")[0]], sort_keys=True)
-                if key in seen_classes:
-                    continue
-                seen_classes.add(key)
-                kf = vlib.match_known(PID, klass)
-                if kf:
-                    res.known_finding(kf["description"])
-                    continue
-                nviol += 1
-                if nviol <= 12:
-                    # minimal replay: the ops on that key
-                    kk = op.get("k")
-                    mini = [o for o in sc["ops"] if o.get("k") == kk or (o["op"] == "sleep") or (o["op"] == "mdel" and kk in o.get("ks", []))]
-                    res.violation({"kind": "impl-violates-property", "cluster": cfg, "scenario": {"ops": mini},
-                                   "failed_op": culprit, "observed": ob, "predicate": {"name": "reference-semantics/mirror", "verdict": bad},
-                                   "seed": res.seed})
-    if not proofs_ok and not res.violations:
-        broken = [o for o in res.obligations if not o["ok"]]
-        res.violation({"kind": "obligation-broken", "failed": [o["theorem"] for o in broken],
-                       "detail": [o.get("detail", o.get("axioms")) for o in broken]}, no_input=True)
-    res.coverage.update({
-        "evaluations": evaluated, "distinct_nontrivial": evaluated - discarded,
-        "rule": "exhaustive grid {none,NX,XX} x {none,EX,PX,EXAT,PXAT} x {absent,present,expired-not-necessarily-evicted} x 7 client paths "
-                "for Put, plus Expire/GetPut/Incr/Decr/Delete per (state,path) and a 7-key Delete spread over the owners per path; "
-                "each on a fresh key, followed by Get through the owner and a white-box dump of all copies; non-trivial = judged (not discarded for timing)",
-        "exhaustive": True, "discarded_for_timing": discarded, "op_histogram": hist, "result_histogram": rhist,
-        "traces_validated_against_impl": len(allsc),
-        "samples": [allsc[0]["ops"][300:306]],
-    })
+    groups = []
+    sid = 0
+    for cfg in cfgs:
+        scs = []
+        for path in PATHS:
+            scs.append({"id": sid, "ops": grid(res.seed, "c15g%d" % sid, [path]), "_path": path})
+            sid += 1
+        groups.append((cfg, scs))
+    return groups
+
+
+def classify(msg, sc):
+    return {"kind": "dmap-path", "path": sc.get("_path", "?").split("@")[0]}
+
+
+def run(res):
+    dmapcheck.run_dmap_check(
+        res, PID, gen_groups, dmaplib.judge_seq, shard=1, classify=classify,
+        rule="exhaustive grid per client path: {none,NX,XX} x {none,EX,PX,EXAT,PXAT} x {absent,present,expired-not-necessarily-evicted} for Put, "
+             "plus Expire/GetPut/Incr/Decr/Delete per prior state and a 7-key Delete spread over the owners; 7 paths (embedded on owner / "
+             "non-owner / backup owner, cluster client, raw RESP to owner / non-owner, pipeline); each operation on a fresh key, followed by "
+             "Get through the owner and a white-box dump of all copies; judged by the reference semantics (the same for every path) and the "
+             "mirror predicate, and compared with Model/DMap.v inside Coq")
 
 
 def replay(res, path):
-    obj = json.load(open(path))
-    ok, out = vlib.harness_build()
-    if not ok:
-        raise vlib.CheckError(out)
-    sc = {"id": 0, "ops": obj["scenario"]["ops"]}
-    r = dmaplib.run_cluster(obj["cluster"], [sc])[0]
-    print(json.dumps(r["obs"], indent=1)[:4000])
-    bad = dmaplib.check_semantics(sc, r["obs"]) or dmaplib.check_mirror(sc, r["obs"], obj["cluster"]["replicas"], obj["cluster"]["members"])
-    if bad and bad != "discard":
-        print("VIOLATION property=%s replay=%s" % (res.pid, path))
-        return 1
-    return 0
+    return dmapcheck.replay(res, path, dmaplib.judge_seq)
